@@ -61,6 +61,35 @@ def runCase : Sexp → String
         guarded (inherentOk ty) (inherentMethodFnName ty m.toList),
         guarded eo (refStructName ty),
         guarded eo (helperFnName "ref_get".toList ty)]
+  | .list [.atom "implgo", .atom tr, t, .atom m] =>
+    match decodeTy t with
+    | some ty => str (compileFnName (traitImplFnName tr.toList ty m.toList))
+    | none => "bad-type"
+  | .list [.atom "inhgo", t, .atom m] =>
+    match decodeTy t with
+    | some ty => guarded (inherentOk ty) (compileFnName (inherentMethodFnName ty m.toList))
+    | none => "bad-type"
+  | .list [.atom "specgo", .atom orig, .list subst] =>
+    match decodeSubst subst with
+    | some s => str (compileFnName (specNameFor orig.toList s))
+    | none => "bad-subst"
+  | .list [.atom "monotygo", .atom name, .list args] =>
+    match optMapM decodeTy args with
+    | some as => str (goIdent (monoTypeName name.toList as))
+    | none => "bad-args"
+  | .list [.atom "tyname", t] =>
+    match decodeTy t with
+    | some ty => guarded (goTypeNameOk ty) (goTypeNameFor ty)
+    | none => "bad-type"
+  | .list [.atom "refstruct", t] =>
+    match decodeTy t with
+    | some ty => guarded (encodeOk ty) (refStructName ty)
+    | none => "bad-type"
+  | .list [.atom "helper", .atom pfx, t] =>
+    match decodeTy t with
+    | some ty => guarded (encodeOk ty) (helperFnName pfx.toList ty)
+    | none => "bad-type"
+  | .list [.atom "marker", .atom e] => str (enumMarkerMethod e.toList)
   | .list [.atom "spec", .atom orig, .list subst] =>
     match decodeSubst subst with
     | some s => str (specNameFor orig.toList s)
@@ -69,8 +98,8 @@ def runCase : Sexp → String
     match optMapM decodeTy args with
     | some as => str (monoTypeName name.toList as)
     | none => "bad-args"
-  | .list [.atom "variant", .list enums, .atom e, .atom v] =>
-    str (variantStructName (decodeEnums enums) e.toList v.toList)
+  | .list [.atom "variant", .list enums, .list structs, .atom e, .atom v] =>
+    str (variantStructName (decodeEnums enums) ((structs.filterMap Sexp.str?).map String.toList) e.toList v.toList)
   | .list [.atom "closure", .atom hint, id] =>
     let h := sanitizeEnvName hint.toList
     let env := closureEnvName h (id.nat?.getD 0)
